@@ -140,7 +140,8 @@ def report(ck, reported, out, idx, cls, kind, sig, detail):
     key = (kind, cls, sig)
     if fid is None and key in reported:
         return
-    reported.add(key)
+    if fid is None:      # a listed finding never hides a later unlisted violation of the same class
+        reported.add(key)
     src = input_of(out, idx)
     ck.violation({"kind": kind, "finding": fid, "input_class": cls, "input_index": idx, "signature": sig, "detail": detail[:1500],
                   "input_quoted": src[:20000], "input_bytes": len(src),
